@@ -113,7 +113,52 @@ def h_independent(e, mnems):
     e.claim("canary:n+5", pm.cycles == n + 5)
 
 
-HARNESSES = {"timing": h_timing, "independent": h_independent}
+PEN_D = [("wt", "lru", 0, 0, 1), ("wb", "lru", 0, 0, 1), ("wb", "plru", 0, 1, 2), ("wt", "lru", 1, 0, 2)]
+PEN_I = [("lru", 0, 0, 1), ("plru", 1, 0, 2)]
+PEN_SK = [["ecall"], ["lw"], ["sw"], ["lb"], ["sb"], ["addi"], ["beq"], ["lw", "ecall"], ["sb", "ecall"], ["ecall", "lw"], ["sw", "lb"], ["lw", "lw"], ["jal", "sw"], ["ecall", "ecall"], ["sw", "lw", "ecall"]]
+
+
+def h_penalty(e, mnems, dcfg, icfg):
+    """penalty clause: five-stage run with an instruction and a data cache, both miss penalties
+    symbolic; every step advances the cycle counter by exactly 1 + penalty x (counted misses of
+    that step) - in particular uncounted reads (print-string, tables) charge nothing"""
+    from symx.state import mk_riscv, place_instructions, cache_options
+
+    kind, drepl, dib, dbb, dways = dcfg
+    irepl, iib, ibb, iways = icfg
+    K = progs.k_for(len(mnems))
+    if any(m == "ecall" for m in mnems) and e.mode == "sym":
+        e.site_bounds["process_ecall"] = progs.ECALL_SITE_BOUND
+    pd, pi = e.int("penalty_d", 0, 1000), e.int("penalty_i", 0, 1000)
+    items, fields = progs.build_program(e, mnems)
+    c5 = mk_riscv(e, mode="five_stage_pipeline", dcache=cache_options(True, dib, dbb, dways, kind, drepl, 0), icache=cache_options(True, iib, ibb, iways, "wb", irepl, 0))
+    st = c5.sim.state
+    st.memory.miss_penality = pd
+    st.instruction_memory.miss_penality = pi
+    place_instructions(e, c5, items)
+    pm, dm, im = st.performance_metrics, st.memory, st.instruction_memory
+    last = {"cycles": 0, "dm": 0, "im": 0}
+    checks = []
+
+    def on5(sim, r):
+        dmiss, imiss = dm.accesses - dm.hits, im.accesses - im.hits
+        checks.append((pm.cycles, last["cycles"] + 1 + pd * (dmiss - last["dm"]) + pi * (imiss - last["im"])))
+        last.update(cycles=pm.cycles, dm=dmiss, im=imiss)
+
+    s5 = progs.run_five(e, c5, progs.cycle_bound(K), on_step=on5, K=K)
+    e.observe("steps5", s5.steps)
+    e.observe("misses", [dm.accesses - dm.hits, im.accesses - im.hits])
+    if s5.fault is not None or s5.nonterminating:
+        return "fault"
+    for i, (got, want) in enumerate(checks):
+        e.claim_eq("cycle-advances-by-1-plus-penalties-step%d" % i, got, want)
+    e.claim_eq("total-cycles-with-penalties", pm.cycles, s5.steps + pd * (dm.accesses - dm.hits) + pi * (im.accesses - im.hits))
+    e.claim("canary:penalty", cond("==", pm.cycles, s5.steps + 1 + pd * (dm.accesses - dm.hits) + pi * (im.accesses - im.hits)))
+    e.observe("cycles", pm.cycles)
+    return "ok"
+
+
+HARNESSES = {"timing": h_timing, "independent": h_independent, "penalty": h_penalty}
 
 
 def jobs(tier, seed):
@@ -133,6 +178,12 @@ def jobs(tier, seed):
             if n >= 2:
                 sk[(k + seed) % n] = "lw" if k % 2 == 0 else "sw"  # one memory instruction per program
             out.append({"label": "ind%d-%d:%s" % (n, k, ",".join(sk)), "harness": "independent", "args": {"mnems": sk}, "cost": 3 * n})
+    for i, sk in enumerate(PEN_SK):
+        if tier == "quick" and len(sk) > 2:
+            continue
+        for j in range(1 if tier == "quick" and len(sk) > 1 else 2 if tier == "quick" else len(PEN_D)):
+            d, ic = PEN_D[(i + j + seed) % len(PEN_D)], PEN_I[(i + j) % len(PEN_I)]
+            out.append({"label": "penalty:%s-%s-%s" % (",".join(sk), "".join(map(str, d)), "".join(map(str, ic))), "harness": "penalty", "args": {"mnems": sk, "dcfg": list(d), "icfg": list(ic)}, "cost": 40 * len(sk), "timeout_ms": 10000, "cut_on_undecided": True, "validate_every": 3, "optional": len(sk) > 2})
     return out
 
 
